@@ -12,7 +12,7 @@ COQ_AGREE = "agree"
 COQ_PROP_OK = "prop_ok"
 RULE = ("seeded generator over the four public buffer classes: capacity in {1,2,3,5,8}; probability dyadic in [0,1] incl. 0 and 1, "
         "or given through expected_survival_length, plus a malformed stream (p outside [0,1], both parameters); operation lists of up to 60 "
-        "add/get/len/mutate-returned/save+load(into equal, smaller, larger capacity) with scripted random()/randint() answers, duplicates, "
+        "add/get/len/mutate-returned/save+load(into equal, smaller, larger capacity; into a fresh buffer or one that already holds samples; read or not before the load) with scripted random()/randint() answers, duplicates, "
         "wrong key sets for dict variants. Non-trivial = at least one add on a full buffer and at least one get; distinct = canonical JSON input.")
 TRUSTED = [
     "Coq 8.16.1 kernel incl. vm_compute (no native_compute)",
@@ -59,7 +59,7 @@ def gen_one(rng):
         else:
             cur = rng.choice([cur, cur, max(1, cur - 1), cur + 2, rng.choice(CAPS)])
             # load into a fresh buffer, or into one that already holds a few (other) samples
-            ops.append(["saveload", cur, rng.choice([0, 0, 1, 2, cur])])
+            ops.append(["saveload", cur, rng.choice([0, 0, 1, 2, cur]), rng.random() < 0.5])   # ..., the target buffer has been read before the load
     case["ops"] = ops
     return case
 
